@@ -1,6 +1,6 @@
 (* C01 -- witnesses (by vm_compute) that each hypothesis packed into `guarded` is NECESSARY: without it the faithful
    implementation model M lets a container change, exactly as static-frame 0.8.8 does. *)
-Require Import SF.Prelude SF.Heap.
+Require Import SF.Prelude SF.Heap Gen.Gen_c01.
 Local Open Scope nat_scope.
 
 (* FINDING C01-readonly-alias.  a = np.array([1,2,3]); v = a[:]; v.flags.writeable = False; s = sf.Series(v); a[0] = 99
@@ -13,6 +13,7 @@ Proof.
   exists [SNew [1; 2; 3]%Z; SView 0 [0; 1; 2]; SFreeze 1; SConstruct [FromCaller RFilter 1]], [SWrite 0 0 99%Z], 0.
   split; [vm_compute; reflexivity|]. split; [vm_compute; repeat constructor|]. vm_compute. discriminate.
 Qed.
+Print Assumptions C01_readonly_alias_refuted.
 
 (* STATED EXCLUSION (ownership transfer).  a = np.array([1,2,3]); v = a[:]; f = sf.Frame(a, own_data=True); v[0] = 99
    own_data=True sets a.flags.writeable = False in place and keeps a; a view taken earlier stays writeable. *)
@@ -24,23 +25,33 @@ Proof.
   exists [SNew [1; 2; 3]%Z; SView 0 [0; 1; 2]; SConstruct [FromCaller ROwn 0]], [SWrite 1 0 99%Z], 0.
   split; [vm_compute; reflexivity|]. split; [vm_compute; repeat constructor|]. vm_compute. discriminate.
 Qed.
+Print Assumptions C01_own_data_view_refuted.
 
-(* FINDING C01-pickle-positions.  i = pickle.loads(pickle.dumps(sf.Index((10,20,30)))); p = i.positions; p[0] = 99
-   Index.__setstate__ re-freezes _labels only: the unpickled _positions array is writeable and is handed out. *)
+(* FINDING C01-pickle-positions, with the re-freeze flags READ FROM THE CURRENT SOURCE (Gen_c01.pickle_flags_index).
+   i = pickle.loads(pickle.dumps(sf.Index((10,20,30)))); p = i.positions; p[0] = 99
+   Index.__setstate__ re-freezes _labels only: the unpickled _positions array is writeable and is handed out.
+   (Once __setstate__ freezes _positions too this witness no longer compiles and must be deleted.) *)
 Theorem C01_pickle_positions_refuted : exists h1 h2 c,
   guarded w0 (h1 ++ h2) = false /\
   c < length (w_conts (M_run w0 h1)) /\
   cont_obs (M_run w0 (h1 ++ h2)) c <> cont_obs (M_run w0 h1) c.
 Proof.
-  exists [SConstruct [FromVals [10; 20; 30]%Z; FromVals [0; 1; 2]%Z]; SDerive 0 [DPickle 0 true; DPickle 1 false]; SExpose 1 1],
+  exists [SConstruct [FromVals [10; 20; 30]%Z; FromVals [0; 1; 2]%Z]; SDerive 0 (pickle_dsrcs_from 0 pickle_flags_index); SExpose 1 1],
          [SWrite 0 0 99%Z], 1.
   split; [vm_compute; reflexivity|]. split; [vm_compute; repeat constructor|]. vm_compute. discriminate.
 Qed.
+Print Assumptions C01_pickle_positions_refuted.
 
 (* ... and the array handed out after the round trip is writeable (the "read-only status" part of the property) *)
 Theorem C01_pickle_positions_writeable_refuted : exists hist,
   callers_obs (M_run w0 hist) = [([0; 1; 2]%Z, true)].
 Proof.
-  exists [SConstruct [FromVals [10; 20; 30]%Z; FromVals [0; 1; 2]%Z]; SDerive 0 [DPickle 0 true; DPickle 1 false]; SExpose 1 1].
+  exists [SConstruct [FromVals [10; 20; 30]%Z; FromVals [0; 1; 2]%Z]; SDerive 0 (pickle_dsrcs_from 0 pickle_flags_index); SExpose 1 1].
   vm_compute. reflexivity.
 Qed.
+Print Assumptions C01_pickle_positions_writeable_refuted.
+
+(* ArrayGO has no __setstate__ at all (FINDING C01-pickle-arraygo) *)
+Theorem C01_pickle_arraygo_refuted : pickle_flag_arraygo = false.
+Proof. reflexivity. Qed.
+Print Assumptions C01_pickle_arraygo_refuted.
